@@ -47,6 +47,9 @@ func init() {
 		Variant{ID: "c11-r1-zero-only-when-negative", Prop: "C11", File: "replication/binlog_event_rbr.go",
 			Old: "\t\tif !flag {\n\t\t\ttxt.WriteByte('0')\n\t\t}\n", New: "\t\tif !flag && !isNegative {\n\t\t\ttxt.WriteByte('0')\n\t\t}\n",
 			Expect: "C11-R1 written@decimal"},
+		Variant{ID: "c11-r3-int-loop-skip-without-advance", Prop: "C11", File: "replication/binlog_event_rbr.go",
+			Old: "\t\t\t//fmt.Fprintf(txt, \"%9d\", val) 中间有0的情况已经处理\n", New: "\t\t\tif !flag && val == 0 {\n\t\t\t\tcontinue\n\t\t\t}\n",
+			Expect: "C11-R3 int-loop@decimal"},
 	)
 }
 
@@ -522,6 +525,50 @@ func runC11(a *A) {
 						start, _ = rv.constOf(phi.Edges[i])
 					}
 				}
+			}
+			// the cursor of the group reads advances by exactly one group (4 bytes) on every way round the loop, and the
+			// counter by one
+			which := "int-loop"
+			if dotIn != nil && instrDominates(dotIn, iff) {
+				which = "frac-loop"
+			}
+			latch := -1
+			for i, pr := range b.Preds {
+				if b.Dominates(pr) {
+					latch = i
+				}
+			}
+			if latch >= 0 {
+				if cphi, ok := bo.X.(*ssa.Phi); ok {
+					tq := newTB(rv)
+					tq.names[cphi] = "@i"
+					if d := tq.term(cphi.Edges[latch]).add(affAtom("@i"), -1).String(); d != "1" {
+						report(finding{"C11-R3", which + "@decimal" + tag, w.posOf(iff), fmt.Sprintf("DECIMAL(%d,%d): the group counter moves by %s per iteration, not by 1", p, s, d)})
+					}
+				}
+				instrs(rv.Fn, func(in ssa.Instruction) {
+					c, ok := in.(*ssa.Call)
+					if !ok || !rv.Exec[c.Block()] || !b.Dominates(c.Block()) || c.Block() == b {
+						return
+					}
+					cal := c.Common().StaticCallee()
+					if cal == nil || cal.Pkg == nil || cal.Pkg.Pkg.Path() != "encoding/binary" || cal.Name() != "Uint32" {
+						return
+					}
+					sl, ok := c.Common().Args[len(c.Common().Args)-1].(*ssa.Slice)
+					if !ok || sl.Low == nil {
+						return
+					}
+					cur, ok := sl.Low.(*ssa.Phi)
+					if !ok || cur.Block() != b {
+						return
+					}
+					tq := newTB(rv)
+					tq.names[cur] = "@p"
+					if d := tq.term(cur.Edges[latch]).add(affAtom("@p"), -1).String(); d != "4" {
+						report(finding{"C11-R3", which + "@decimal" + tag, w.posOf(c), fmt.Sprintf("DECIMAL(%d,%d): the cursor of the 9-digit group reads moves by %s per iteration, not by the 4 bytes of a group: after such an iteration every later group is read from the wrong offset", p, s, d)})
+					}
+				})
 			}
 			if dotIn != nil && instrDominates(dotIn, iff) {
 				if k-start != s/9 {
